@@ -939,7 +939,16 @@ package sftp
 //@   ensures typeis(result, *sshFxpHandlePacket) || typeis(result, *sshFxpStatusPacket)
 //@   ensures serverOK(svr)
 
+//@ ghost var rdBuf []os.FileInfo
+
 //@ func (*sshFxpReaddirPacket).respond
+//@   update after call (file).Readdir#1: ghost.rdBuf = ret0
+//@   loop 1 invariant ret != nil && older(ret) && older(ret.NameAttrs) && len(ret.NameAttrs) == rangeindex + 1 && rangeindex < len(dirents) && ret.ID == p.ID
+//@   loop 1 invariant forall(k, 0 <= k && k < len(ret.NameAttrs) ==> ret.NameAttrs[k] != nil && older(ret.NameAttrs[k]) && older(ret.NameAttrs[k].Attrs))
+//@   loop 1 invariant forall(k, 0 <= k && k < len(ret.NameAttrs) ==> len(ret.NameAttrs[k].Attrs) == 1 && ret.NameAttrs[k].Attrs[0] == dirents[k])
+//@   ensures typeis(result, *sshFxpNamePacket) ==> len(result.(*sshFxpNamePacket).NameAttrs) == len(ghost.rdBuf)
+//@   ensures typeis(result, *sshFxpNamePacket) ==> forall(k, 0 <= k && k < len(ghost.rdBuf) ==> len(result.(*sshFxpNamePacket).NameAttrs[k].Attrs) == 1 && result.(*sshFxpNamePacket).NameAttrs[k].Attrs[0] == ghost.rdBuf[k])
+// (the reply carries one entry per directory entry read, in order, each built from its own FileInfo)
 //@   property C07, C02, C16, C09
 //@   requires serverOK(svr)
 //@   ensures ghost.fsWrites == old(ghost.fsWrites)
@@ -1539,7 +1548,15 @@ package sftp
 //@   ensures result != nil && result.id() == pkt.id()
 //@   ensures typeis(result, *sshFxpStatusPacket) || typeis(result, *StatVFS)
 
+//@ ghost var lsN int
+//@ ghost var lsBuf []os.FileInfo
+
 //@ func filelist
+//@   update after call (ListerAt).ListAt#1: ghost.lsN = ret0
+//@   update after call (ListerAt).ListAt#1: ghost.lsBuf = arg1
+//@   ensures typeis(result, *sshFxpNamePacket) ==> len(result.(*sshFxpNamePacket).NameAttrs) == ghost.lsN
+//@   ensures typeis(result, *sshFxpNamePacket) ==> forall(k, 0 <= k && k < ghost.lsN ==> len(result.(*sshFxpNamePacket).NameAttrs[k].Attrs) == 1 && result.(*sshFxpNamePacket).NameAttrs[k].Attrs[0] == ghost.lsBuf[k])
+// (the reply carries one entry per FileInfo the lister returned, in order, each built from its own FileInfo)
 //@   ensures ghost.hclosed == old(ghost.hclosed)
 //@   assert before call (io.Closer).Close#*: false
 //@   property C14
@@ -1547,6 +1564,8 @@ package sftp
 //@   assert before call (ListerAt).ListAt#1: arg2 == offset && len(arg1) == int(MaxFilelist)
 //@   assert before call (*state).lsInc#1: arg1 == int64(n) && arg0 == &r.state
 //@   loop 1 invariant len(nameAttrs) == rangeindex + 1 && cap(nameAttrs) == len(finfo) && rangeindex < len(finfo)
+//@   loop 1 invariant older(nameAttrs) && forall(k, 0 <= k && k < len(nameAttrs) ==> nameAttrs[k] != nil && older(nameAttrs[k]) && older(nameAttrs[k].Attrs))
+//@   loop 1 invariant forall(k, 0 <= k && k < len(nameAttrs) ==> len(nameAttrs[k].Attrs) == 1 && nameAttrs[k].Attrs[0] == finfo[k])
 //@   requires h != nil && r != nil && pkt != nil && rsReqType(pkt)
 //@   requires MaxFilelist >= 1 && MaxFilelist <= 1000000
 //@   ensures result != nil && result.id() == pkt.id()
